@@ -39,27 +39,102 @@ type Ctx struct {
 	epochs     map[string]*State // tree snapshots other than the entry tree, by epoch name
 	epochKeys  map[string]string
 	recReads   map[string]map[string]bool // per recursive definition: heap components it reads (transitively)
+	freshRefs  map[string]bool            // terms that denote references allocated after the unit's entry
+	frameInfo  map[string]frameInfo       // havoc constants: what they are known to agree with
 	curRec     []string
 	recCalls   map[string]map[string]bool
 }
 
+type frameInfo struct {
+	base      *Term // the value before the havoc
+	hasRegion bool  // the frame excludes a declared region (so old indices may have changed)
+}
+
+// pristine: t provably agrees with the entry value on every index that existed at entry (only
+// fresh indices were stored to; havocs in between carried a full frame).
+func (cx *Ctx) pristine(t, entry *Term) bool {
+	for depth := 0; depth < 10000; depth++ {
+		if same(t, entry) {
+			return true
+		}
+		if t.Op == "store" {
+			if !cx.freshRefs[t.Args[1].String()] {
+				return false
+			}
+			t = t.Args[0]
+			continue
+		}
+		if fi, ok := cx.frameInfo[t.Op]; ok && len(t.Args) == 0 {
+			if fi.hasRegion {
+				return false
+			}
+			t = fi.base
+			continue
+		}
+		return false
+	}
+	return false
+}
+
+// entryBuilt: the term mentions only parameters, globals and entry-state components, so every
+// reference in it existed when the unit was entered.
+func (cx *Ctx) entryBuilt(t *Term) bool {
+	syms := map[string]bool{}
+	collectSyms(t, map[string]bool{}, syms)
+	for s := range syms {
+		if _, isConst := cx.consts[s]; !isConst {
+			continue
+		}
+		if strings.HasSuffix(s, "@0") || strings.HasPrefix(s, "p_") || strings.HasPrefix(s, "g_") {
+			continue
+		}
+		return false
+	}
+	return true
+}
+
 // epochName returns the symbol suffix for recursive definition 'name' evaluated against snapshot st:
 // "" when everything the definition reads is unchanged since the unit's entry.
-func (cx *Ctx) epochName(name string, st *State) string {
+func (cx *Ctx) epochName(name string, st *State, args []*Term) string {
+	return cx.epochNameF(name, st, args, false)
+}
+
+func (cx *Ctx) epochNameF(name string, st *State, args []*Term, force bool) string {
 	if st == nil || st == cx.tree {
 		return ""
 	}
 	var key strings.Builder
-	changed := false
+	changed, allPristine := false, true
 	for _, cn := range sortedKeys(cx.recReads[name]) {
 		now := st.Get(cx, cn)
 		if !same(cx.tree.Get(cx, cn), now) {
 			changed = true
+			if !cx.pristine(now, cx.tree.Get(cx, cn)) {
+				allPristine = false
+			}
 		}
 		key.WriteString(cn + "=" + now.String() + "|")
 	}
 	if !changed {
 		return ""
+	}
+	// Everything that existed at entry is unchanged, and the arguments reach only such objects
+	// (references stored in old objects are old: heap reference invariant): same value as at entry.
+	if allPristine && !force {
+		old := true
+		for _, a := range args {
+			// only arguments that can hold references into the tree matter
+			if a.Sort != "Code" && a.Sort != SInt && a.Sort != "Slice" {
+				continue
+			}
+			if !cx.entryBuilt(a) {
+				old = false
+				break
+			}
+		}
+		if old {
+			return ""
+		}
 	}
 	if cx.epochs == nil {
 		cx.epochs = map[string]*State{}
@@ -156,10 +231,11 @@ type Env struct {
 	epoch string // (unused)
 	epochSt *State // tree snapshot recursive spec functions read (nil = the unit's entry tree)
 	loopEntry *State // state when the enclosing loop was entered (for atLoopEntry(e))
+	forceEpoch bool  // never identify a changed tree snapshot with the entry tree (lemma instances)
 }
 
 func (e *Env) with(vars map[string]*Term) *Env {
-	n := &Env{cx: e.cx, st: e.st, old: e.old, vars: map[string]*Term{}, epochSt: e.epochSt, loopEntry: e.loopEntry}
+	n := &Env{cx: e.cx, st: e.st, old: e.old, vars: map[string]*Term{}, epochSt: e.epochSt, loopEntry: e.loopEntry, forceEpoch: e.forceEpoch}
 	for k, v := range e.vars {
 		n.vars[k] = v
 	}
@@ -661,6 +737,11 @@ func (env *Env) call(x *Expr) *Term {
 	case "mapof":
 		nargs(1)
 		return env.mapValue(args[0])
+	case "emptyOf":
+		// the empty map value of the same sort as the argument (a map or map value)
+		nargs(1)
+		mv := env.mapValue(args[0])
+		return enc.EmptyMap(mv.Sort).WithT(mv.T)
 	case "fresh":
 		nargs(1)
 		if env.old == nil {
@@ -766,7 +847,7 @@ func (env *Env) call(x *Expr) *Term {
 				}
 				env.cx.recCalls[cur][x.Name] = true
 			}
-			if e := env.cx.epochName(x.Name, env.epochSt); e != "" {
+			if e := env.cx.epochNameF(x.Name, env.epochSt, args, env.forceEpoch); e != "" {
 				name = x.Name + "!" + e
 				enc.declFun(name, f.Args, f.Ret)
 			}
@@ -800,7 +881,7 @@ func (env *Env) callDef(d *Def, args []*Term) *Term {
 		vars[p.Name] = a
 	}
 	// defs see only their parameters (hygiene), but the caller's state
-	n := &Env{cx: env.cx, st: env.st, old: env.old, vars: vars, epochSt: env.epochSt, loopEntry: env.loopEntry}
+	n := &Env{cx: env.cx, st: env.st, old: env.old, vars: vars, epochSt: env.epochSt, loopEntry: env.loopEntry, forceEpoch: env.forceEpoch}
 	r := n.ev(d.Body)
 	if d.Ret != "" {
 		s, gt := env.cx.ResolveType(d.Ret)
